@@ -602,11 +602,25 @@ def gen_named(rng, case, params, kind):
         if rng.random() < 0.5:
             rng.shuffle(names)
         return names
+    if k == "sibling":
+        # a two-kind arc (trinary LNL -> LNL: spread and micro): one kind through the global name, the other named
+        # specifically for that arc; the arc must still receive the global value of the first kind
+        two = sorted({p.rsplit("_", 1)[0] for p in params if p.endswith("_micro")} & {p.rsplit("_", 1)[0] for p in params if p.endswith("_spread")})
+        if two:
+            arc = rng.choice(two)
+            g1, other = rng.choice([("spread", "micro"), ("micro", "spread")])
+            names = [g1, f"{arc}_{other}"]
+            rest = [p for p in params if p not in names and not p.startswith(arc + "_")]
+            if rest and rng.random() < 0.4:
+                names.append(rng.choice(rest))
+            rng.shuffle(names)
+            return names
+        k = "global"
     if k == "global":
         names = rng.sample(G, rng.randint(1, min(2, len(G))))
         sibling = [p for p in params if not any(matches(gn_, p) for gn_ in names)
                    and any(matches(gn_, q) and q.rsplit("_", 1)[0] == p.rsplit("_", 1)[0] for gn_ in names for q in params)]
-        if sibling and rng.random() < 0.4:      # one arc's other kind of parameter, named specifically beside the global name
+        if sibling and rng.random() < 0.7:      # one arc's other kind of parameter, named specifically beside the global name
             names.insert(rng.randint(0, len(names)), rng.choice(sibling))
         return names
     if k == "partial" and P:
@@ -663,7 +677,7 @@ def gen_named(rng, case, params, kind):
     return rng.sample(params, rng.randint(1, len(params)))
 
 
-NAMED_KINDS = ["literal", "literal", "literal", "all", "global", "global", "partial", "side", "specific-global",
+NAMED_KINDS = ["literal", "literal", "literal", "all", "global", "global", "sibling", "sibling", "partial", "side", "specific-global",
                "specific-global", "global-specific", "global-specific", "shadowed", "nomatch", "odd", "dup", "reversed", "tie"]
 BAD_VALUES = [float("nan"), float("inf"), -0.25, 1.5]
 
